@@ -142,6 +142,14 @@ class Interp:
         self.called = set()  # (rel, qualname) of every repo function interpreted on this path
         self.native_called = set()
 
+    def instantiate_forall(self, index):
+        """Skolem mode of all()/any() (`quant_skolem`): use the recorded universal facts at the index term `index`."""
+        for v, want_all in list(getattr(self, "forall_facts", [])):
+            if not self.ctx.branch(z3.And(index >= 0, index < v.len)):
+                continue
+            if self.truth(v.at(index)) != want_all:
+                raise Infeasible()
+
     # ------------------------------------------------------------------ functions ---------
     def closure_of(self, fn):
         """Closure for a real function object defined in /repo (source re-read from the tree)."""
@@ -1904,6 +1912,16 @@ def floor_div(x, y):
 def as_seq(interp, v):
     if isinstance(v, SSeq):
         return v
+    if isinstance(v, SObj):
+        cls = interp.class_of(v)
+        try:
+            raw = _static_getattr(cls, "__iter__")
+        except AttributeError:
+            raise Undecided(f"iteration over {v!r}")
+        r = interp.call(interp._bind_class_attr(raw, v, cls))
+        if isinstance(r, SSeq):
+            return r
+        v = r
     items = list(v)
     return SSeq(z3.IntVal(len(items)), lambda i, items=items: _pick(interp, items, i), name="lit")
 
@@ -2287,6 +2305,13 @@ def _quant_over(interp, v, want_all):
         # decide by forking: either some witness index makes it false/true, or every element holds
         b = ctx.choose(2, "quant")
         j = ctx.int("w")
+        if (b == 0) == want_all and getattr(interp, "quant_skolem", False):
+            # universal case, Skolem mode: the element function may fork (e.g. on the kind of a dim), which must not
+            # happen on a bound variable.  Nothing is assumed here (assuming less is sound); the scenario instantiates
+            # the recorded fact at the index terms it needs: `interp.instantiate_forall(index)`.
+            interp.forall_facts = getattr(interp, "forall_facts", [])
+            interp.forall_facts.append((v, want_all))
+            return want_all
         if (b == 0) == want_all:
             # universal case: for an arbitrary index the element is (want_all ? true : false)
             # recorded as a quantified assumption evaluated lazily through a fresh universally
@@ -2469,6 +2494,8 @@ def _m_object_setattr(interp, obj, name, value):
 def _m_iter(interp, v, *a):
     if a:
         return interp.native(iter, [v] + list(a), {})
+    if isinstance(v, SSeq) and not z3.is_int_value(z3.simplify(v.len)):
+        return v
     return list(interp.iterate(v))
 
 
@@ -2647,7 +2674,27 @@ def _str_replace(interp, s, a, b, *cnt):
     raise Undecided("str.replace (replace_all) on symbolic string")
 
 
+def _seq_append(interp, s, x):
+    """list.append on a symbolic-length list created by a loop invariant's havoc (`mutable`): in-place, like CPython"""
+    if not getattr(s, "mutable", False):
+        raise Undecided("append to a symbolic sequence that is not known to be an unaliased list")
+    old_len, old_get = s.len, s.get
+
+    def get(i, old_len=old_len, old_get=old_get):
+        if interp.ctx.branch(i == old_len):
+            return x
+        return old_get(i)
+    s.len = z3.simplify(old_len + 1)
+    s.get = get
+    s._cache = {}
+    if not hasattr(s, "appended"):
+        s.appended = []
+    s.appended.append((old_len, x))  # ghost log, so that an invariant can describe the elements without forking
+    return None
+
+
 METHODS = {
+    (SSeq, "append"): _seq_append,
     (SSet, "difference"): _set_difference, (SSet, "union"): _set_union,
     (SSet, "intersection"): _set_intersection, (SSet, "add"): _set_add, (SSet, "remove"): _set_remove,
     (SSet, "discard"): _set_discard, (SSet, "copy"): _set_copy, (SSet, "update"): _set_update,
